@@ -32,6 +32,12 @@ TRUSTED = [
     'exact instance (option Q, None = NaN, x/0 = NaN) has no infinities, no rounding and no overflow: the algebraic theorems '
     'are about the formulas, the float32 behaviour is tied by the correspondence and the oracle only',
     'square root in the exact instance is an abstract function (Section variable)',
+    'C13_nd_float_range (PropsFlocq.v) uses Flocq 4 (BinarySingleNaN: Bplus/Bminus/Bdiv_correct) and therefore the standard '
+    'library Reals axioms: ClassicalDedekindReals.sig_forall_dec, sig_not_dec, FunctionalExtensionality.functional_extensionality_dep, '
+    'Classical_Prop.classic; theorems stated about FloatArith also list Coq\'s primitive float / int63 constants (PrimFloat.add ... '
+    'PrimInt63.land) in Print Assumptions: these are kernel primitives, no property of them is assumed in those proofs '
+    '(the zero-denominator guard on +-0.0 is evaluated by computation)',
+    'float-level theorems take canonical binary32 values (valid_binary 24 128 = true) — every result of the float32 cast is one',
 ]
 ASSUMPTIONS = [
     'NumPy and Dask(NumPy) backends; the model is the NumPy kernel, a Dask result must equal it (CuPy not available here)',
@@ -41,8 +47,12 @@ ASSUMPTIONS = [
     '"published formula" for ARVI is the ArcGIS form (NIR-2R+B)/(NIR+2R+B) the library documents',
 ]
 PARTIAL = [
-    'float32-level versions of nd_range / nd_antisym / nd_scale (power-of-two scaling) are not Coq theorems: they are checked '
-    'bit-exactly on the implementation by the oracle (swap and 2^k-scaling metamorphic pairs) and hold in the exact instance',
+    'float32-level power-of-two scaling: proved unconditionally for the quotient (C13_float_div_scale) and for the kernel only '
+    'under the explicit premises that the float32 sum and difference of the scaled bands are the scaled sum and difference and '
+    'that widening a non-zero float32 gives a non-zero double (C13_nd_float_scale_partial); the statement from value conditions '
+    'alone (all of a, b, a+b, a-b and their scalings normal or zero) is kept UNCLAIMED as Definition '
+    'C13_nd_float_scale_full_statement; the oracle checks 2^k scaling bit-exactly on the implementation',
+    'float32-level antisymmetry holds up to the sign of a zero result (a == b gives +0.0 both ways), which is what the theorem states',
     'overflow of finite float32 bands to +-inf (e.g. 3e38 - (-2e38)) is outside the claim "zero denominator => NaN, never +-inf"',
     'true_color RGB channels (sigmoid normalisation) are covered by the correspondence only; the theorems cover the alpha channel',
     'SAVI: the code (and its tests) divide by (1+L) where the published Huete formula multiplies; recorded as known finding '
@@ -50,11 +60,14 @@ PARTIAL = [
 ]
 LEVEL_TEXT = ('Proved in Coq for all inputs: for every Arith instance (so also for the float32/float64 instance that is executed) '
               'a denominator that compares equal to zero stores NaN for each of the ten kernels and the raster functions apply the '
-              'kernel cell by cell for every raster size; in the exact instance (option Q): each kernel equals its band formula, '
-              'NaN bands propagate, normalised differences of non-negative bands lie in [-1,1], are antisymmetric under band swap '
-              'and invariant under common non-zero scaling, savi(L=0) = ndvi, the savi/evi parameter guards, and the true_color '
-              'alpha rule (alpha in {0,255}, 0 iff red is NaN or <= nodata). Correspondence (bit-exact float32) and oracle only: '
-              'float rounding behaviour, wrapper argument order, true_color RGB channels.')
+              'kernel cell by cell for every raster size. At the executed FLOAT instance (SpecFloat binary32): swapping the bands of '
+              'the normalised difference negates it bit for bit for ALL binary32 values (up to the sign of a zero), axiom-free; for '
+              'non-negative finite bands the stored value is NaN or a finite float32 in [-1,1], never +-inf (via Flocq, Reals axioms); '
+              'the float32 quotient is invariant under scaling both operands by 2^k, the kernel under explicit no-overflow/underflow '
+              'premises (partial). In the exact instance (option Q): each kernel equals its band formula, NaN bands propagate, '
+              'range/antisymmetry/scaling of normalised differences, savi(L=0) = ndvi, the savi/evi parameter guards, and the '
+              'true_color alpha rule. Correspondence (bit-exact float32, NumPy and Dask) and oracle only: rounding behaviour of the '
+              'other kernels, wrapper argument order, true_color RGB channels.')
 LEVEL_NOTE = ('kernels are written once over an arithmetic record; theorems are about its exact instance (option Q) and, where '
               'structural, about every instance; the executed instance uses SpecFloat binary32 + PrimFloat binary64 with hand-written '
               'Numba promotion; exp is passed in by the driver; NumPy backend only')
